@@ -68,6 +68,10 @@ def run(ctx):
     pmap = {}
     for k, v in zip(pm.keys, pm.values):
         kn = k.attr if isinstance(k, ast.Attribute) else None
+        if kn is not None and isinstance(v, ast.Call) and len(v.args) == 1 and isinstance(v.args[0], ast.Constant) and isinstance(v.args[0].value, str) \
+                and getattr(prog.resolve_expr(ac.module, v.func, ac), "name", "") == "operator.attrgetter":
+            pmap[kn] = ([v.args[0].value], None, v)          # attrgetter("f") is lambda s: s.f
+            continue
         if kn is None or not isinstance(v, ast.Lambda):
             raise AnalysisError(f"_PROPERTY_MAP entry `{norm(k)}` is not PropertyId.X: lambda")
         arg = v.args.args[0].arg
